@@ -25,7 +25,9 @@ def run_qs(P, W, mode, cut, shell, cell, scale_pow, s):
             warnings.simplefilter("ignore")
             if mode == "cut":
                 cuts = (np.asarray(cut, float) / (s * s)) / (sc * sc)
-                m = core.mk(QuickShift, dist_cutoff_sq=cuts.copy(), scale=sc, **kw)
+                # one common cut-off may be given as a plain number instead of an array
+                carg = float(cuts[0]) if (len(set(cut)) == 1 and len(cut) % 2 == 0) else cuts.copy()
+                m = core.mk(QuickShift, dist_cutoff_sq=carg, scale=sc, **kw)
             else:
                 m = QuickShift(gabriel_shell=shell, **kw)
             m.fit(X, samples_weight=np.asarray(W, float))
@@ -88,6 +90,8 @@ def gen(args):
             cell = list(rng.integers(2, 2 * r + 2, size=dim))
         diam = int(4 * dim * r * r) + 2
         cut = [int(rng.choice([1, 2, int(rng.integers(1, diam)), int(rng.integers(1, max(2, diam // 8))), 4 * diam])) for _ in range(N)]
+        if rng.random() < 0.25:
+            cut = [cut[0]] * N                      # a common cut-off for all points
         shell = int(rng.integers(1, 4))
         s = [1, 2, 4][int(rng.integers(3))]
         sp = int(rng.integers(-1, 3))
